@@ -102,8 +102,7 @@ func DecompressLZW(src *Buffer, skip uint) (dst *Buffer, err error) {
 	lenUnpacked := int(binary.BigEndian.Uint32(source[:4]))
 	reader := lzw.NewReader(bytes.NewBuffer(source[4:]), lzw.LSB, 8)
 	dst = TakeBuffer()
-	dst.Allocate(lenUnpacked)
-	if err := decompress(dst.B, reader); err != nil {
+	if err := decompress(dst, reader, lenUnpacked); err != nil {
 		return nil, err
 	}
 	return
@@ -119,8 +118,7 @@ func DecompressZLIB(src *Buffer, skip uint) (dst *Buffer, err error) {
 		return nil, err
 	}
 	dst = TakeBuffer()
-	dst.Allocate(lenUnpacked)
-	if err := decompress(dst.B, reader); err != nil {
+	if err := decompress(dst, reader, lenUnpacked); err != nil {
 		return nil, err
 	}
 	return
@@ -136,30 +134,19 @@ func DecompressGZIP(src *Buffer, skip uint) (dst *Buffer, err error) {
 		return nil, err
 	}
 	dst = TakeBuffer()
-	dst.Allocate(lenUnpacked)
-
-	if err := decompress(dst.B, reader); err != nil {
+	if err := decompress(dst, reader, lenUnpacked); err != nil {
 		return nil, err
 	}
 	return
 }
 
-func decompress(dst []byte, reader io.Reader) error {
-	total := 0
-	for {
-		n, e := reader.Read(dst[total:])
-		total += n
-		if e == io.EOF {
-			break
-		}
-		if n == 0 {
-			return fmt.Errorf("dst buffer too small")
-		}
-		if e != nil {
-			return e
-		}
+func decompress(dst *Buffer, reader io.Reader, lenUnpacked int) error {
+	// lenUnpacked comes from the wire: never allocate it up front. Read at
+	// most one byte more than announced and compare the sizes afterwards.
+	if _, err := io.Copy(dst, io.LimitReader(reader, int64(lenUnpacked)+1)); err != nil {
+		return err
 	}
-	if total != len(dst) {
+	if dst.Len() != lenUnpacked {
 		return fmt.Errorf("unpacked size mismatch")
 	}
 
